@@ -362,6 +362,33 @@ func (w *World) intrinsic(t *Thread, f *Frame, fnv FuncV, args []Val, c *ssa.Cal
 			w.cellVC[k] = w.cellVC[k].join(t.vc)
 		}
 		return old + args[1].(int64), false
+	case "(*sync/atomic.Value).CompareAndSwap":
+		k := key(args[0].(Ptr))
+		cur, ok := w.cells[k]
+		if !ok {
+			cur = IfaceV{}
+		}
+		if w.raceOn {
+			t.vc = t.vc.join(w.cellVC[k]).tick(t.id)
+			w.cellVC[k] = w.cellVC[k].join(t.vc)
+		}
+		if w.truth(w.valEq(cur, args[1])) {
+			w.cells[k] = args[2]
+			return true, false
+		}
+		return false, false
+	case "(*sync/atomic.Value).Swap":
+		k := key(args[0].(Ptr))
+		cur, ok := w.cells[k]
+		if !ok {
+			cur = IfaceV{}
+		}
+		w.cells[k] = args[1]
+		if w.raceOn {
+			t.vc = t.vc.join(w.cellVC[k]).tick(t.id)
+			w.cellVC[k] = w.cellVC[k].join(t.vc)
+		}
+		return cur, false
 	case "(*sync/atomic.Bool).CompareAndSwap", "(*sync/atomic.Int32).CompareAndSwap":
 		k := key(args[0].(Ptr))
 		cur, ok := w.cells[k]
